@@ -88,6 +88,59 @@ JWTS = {
     "@Jps@": {"alg": "PS256", "key": "k1", "kid": "", "iss": ISS_GOOD, "sub": "alice", "exp": 3600, "aud": ["api"]},
     "@Jed@": {"alg": "EdDSA", "key": "k2", "kid": "k2", "iss": ISS_GOOD, "sub": "bob", "exp": 3600, "aud": ["api"]},
 }
+# Found, well-formed, properly signed by the trusted issuer — but rejected while the CLAIMS ARE DECODED (oauth2.Claims:
+# NumericDate / Audience / Scopes have their own UnmarshalJSON, the other members are strings). `rawclaims` are written
+# into the payload literally, `decode` is the run-time error the decoder reports (ground truth by construction: the
+# error of heimdall's own claim types is a configuration error, a type mismatch is an error of the JSON library); the
+# remaining members describe the token for the rest of the ground truth.
+DEC_RANGE = chain(kind("configuration"))             # date out of range, audience / scopes of a wrong JSON type
+DEC_PARSE = chain(kind("configuration"), FOREIGN)    # a date that is no number (strconv error attached)
+_OKD = {"key": "k1", "kid": "k1", "iss": ISS_GOOD, "sub": "alice", "exp": 3600, "aud": ["api"]}
+
+
+def _und(raw, decode, **kw):
+    return dict(_OKD, rawclaims=[list(p) for p in raw], decode=decode, **kw)
+
+
+UNDECODABLE_JWTS = {
+    # validity claims outside of the years 1..9999: an expiry given in micro / milliseconds, 1e300, the zero time
+    "@Jexpms@": _und([("exp", "1893456000000000")], DEC_RANGE),
+    "@Jexpmin@": _und([("exp", "-62135596800")], DEC_RANGE),
+    "@Jnbfmin@": _und([("nbf", "-62135596800")], DEC_RANGE),
+    "@Jnbfe300@": _und([("nbf", "-1e300")], DEC_RANGE),
+    "@Jiathuge@": _und([("iat", "1e300")], DEC_RANGE),
+    "@Jiatmax@": _und([("iat", "253402300800")], DEC_RANGE),
+    # validity claims that are no numbers
+    "@Jexpstr@": _und([("exp", '"soon"')], DEC_PARSE),
+    "@Jexpbool@": _und([("exp", "true")], DEC_PARSE),
+    "@Jexpobj@": _und([("exp", '{"$date":{"n":[1]}}')], DEC_PARSE),
+    "@Jnbflist@": _und([("nbf", "[1700000000]")], DEC_PARSE),
+    # audience / scopes of a wrong JSON type
+    "@Jaudnum@": _und([("aud", "5")], DEC_RANGE),
+    "@Jaudmixed@": _und([("aud", '["api",5]')], DEC_RANGE),
+    "@Jaudobj@": _und([("aud", '{"api":true}')], DEC_RANGE),
+    "@Jaudnull@": _und([("aud", "null")], DEC_RANGE),
+    "@Jscpnum@": _und([("scp", "7")], DEC_RANGE),
+    "@Jscpmixed@": _und([("scp", '["read",null]')], DEC_RANGE),
+    "@Jscopeobj@": _und([("scope", '{"a":[1,{"b":null}]}')], DEC_RANGE),
+    # string members of another JSON type: a type mismatch reported by the JSON library
+    "@Jissnum@": _und([("iss", "5")], FOREIGN),
+    "@Jsubnum@": _und([("sub", "12345")], FOREIGN),
+    "@Jjtiobj@": _und([("jti", '{"x":[1]}')], FOREIGN),
+    # without kid every key is tried; the one that verifies the signature fails on the claims
+    "@Jnokidexpms@": _und([("exp", "1893456000000000")], DEC_RANGE, kid="", sub="nokid"),
+    # signed by a key that is not published: the signature fails before any claim is looked at
+    "@Jbadsigexpms@": _und([("exp", "1893456000000000")], DEC_RANGE, key="rogue", sub="mallory"),
+}
+# unusual spellings the decoders accept (controls): a fractional / exponent date in range, a blank separated audience
+ODD_BUT_VALID_JWTS = {
+    "@Jexpfloat@": dict(_OKD, rawclaims=[["exp", "4.0e9"]]),
+    "@Jaudstr@": dict(_OKD, aud=["api", "web"], rawclaims=[["aud", '"api web"']]),
+    "@Jexpnull@": dict(_OKD, rawclaims=[["exp", "null"]]),
+}
+JWTS.update(UNDECODABLE_JWTS)
+JWTS.update(ODD_BUT_VALID_JWTS)
+
 # other spellings of tokens that are valid in their canonical spelling (go-jose decodes them to the same octets)
 for _name in ("ok", "ok2", "nokid"):
     JWTS[f"@J{_name}bits@"] = dict(JWTS[f"@J{_name}@"], respell="bits")
@@ -105,7 +158,33 @@ INTRO = {
     "opq-nosub": {"active": True, "iss": ISS_GOOD, "exp": 3600, "aud": ["api"]},
     "opq-500": {"status": 500},
     "opq-text": {"body": "text"},
+    # active tokens whose introspection response cannot be decoded into oauth2.IntrospectionResponse: the token was
+    # found, the authorization server knows it, heimdall rejects the answer
+    "opq-expms": {"active": True, "sub": "alice-i", "iss": ISS_GOOD, "aud": ["api"],
+                  "rawclaims": [["exp", "1893456000000000"]], "decode": DEC_RANGE},
+    "opq-nbfmin": {"active": True, "sub": "alice-i", "iss": ISS_GOOD, "exp": 3600, "aud": ["api"],
+                   "rawclaims": [["nbf", "-62135596800"]], "decode": DEC_RANGE},
+    "opq-iathuge": {"active": True, "sub": "alice-i", "iss": ISS_GOOD, "exp": 3600, "aud": ["api"],
+                    "rawclaims": [["iat", "1e300"]], "decode": DEC_RANGE},
+    "opq-expstr": {"active": True, "sub": "alice-i", "iss": ISS_GOOD, "aud": ["api"],
+                   "rawclaims": [["exp", '"soon"']], "decode": DEC_PARSE},
+    "opq-audnum": {"active": True, "sub": "alice-i", "iss": ISS_GOOD, "exp": 3600,
+                   "rawclaims": [["aud", "5"]], "decode": DEC_RANGE},
+    "opq-audmixed": {"active": True, "sub": "alice-i", "iss": ISS_GOOD, "exp": 3600,
+                     "rawclaims": [["aud", '["api",{"x":1}]']], "decode": DEC_RANGE},
+    "opq-scopeobj": {"active": True, "sub": "alice-i", "iss": ISS_GOOD, "exp": 3600, "aud": ["api"],
+                     "rawclaims": [["scope", '{"a":[1,{"b":null}]}']], "decode": DEC_RANGE},
+    "opq-activestr": {"sub": "alice-i", "iss": ISS_GOOD, "exp": 3600, "aud": ["api"],
+                      "rawclaims": [["active", '"yes"']], "decode": FOREIGN},
+    "opq-subnum": {"active": True, "iss": ISS_GOOD, "exp": 3600, "aud": ["api"],
+                   "rawclaims": [["sub", "12345"]], "decode": FOREIGN},
+    "opq-expfloat": {"active": True, "sub": "alice-i", "iss": ISS_GOOD, "exp": 3600, "aud": ["api"],
+                     "rawclaims": [["exp", "4.0e9"]]},
+    "opq-audstr": {"active": True, "sub": "alice-i", "iss": ISS_GOOD, "exp": 3600, "aud": ["api", "web"],
+                   "rawclaims": [["aud", '"api web"']]},
     "@Jok@": {"active": True, "sub": "alice", "iss": ISS_GOOD, "exp": 3600, "aud": ["api"]},
+    "@Jexpms@": {"active": True, "sub": "alice", "iss": ISS_GOOD, "aud": ["api"],
+                 "rawclaims": [["exp", "1893456000000000"]], "decode": DEC_RANGE},
     "@Jbadsig@": {"active": False},
     "@Jexpired@": {"active": False},
 }
@@ -120,6 +199,11 @@ IDENT = {
     "sess-notyet": {"sub": "carol", "nbf": 3600},
     "sess-nosub": {"active": True},
     "sess-badexp": {"sub": "erin", "raw_exp": "soon"},
+    # session_lifespan reads integers: an expiry in microseconds is a date in the far future (accepted), 1e300 and an
+    # object are no integers (rejected after the session was found)
+    "sess-expms": {"sub": "frank", "rawclaims": [["exp", "1893456000000000"]]},
+    "sess-expe300": {"sub": "frank", "rawclaims": [["exp", "1e300"]], "decode": True},
+    "sess-expobj": {"sub": "frank", "rawclaims": [["exp", '{"a":[1]}']], "decode": True},
     "sess-401": {"status": 401},
     "sess-500": {"status": 500},
     "sess-text": {"body": "text"},
@@ -173,6 +257,9 @@ def _verify_with_key(desc, mech, kid):
         return ("algNotAllowed", ASSERTION)
     if desc["key"] != kid:
         return ("signature", FOREIGN)
+    if "decode" in desc:
+        # token.Claims(key, …) verifies the signature and then decodes the payload into oauth2.Claims
+        return ("signature", desc["decode"])
     if _claims_fail(desc, mech):
         return ("assertion", ASSERTION)
     return None
@@ -244,6 +331,8 @@ def intro_verdict(tok, mech):
         return verdict(("status", None))
     if spec.get("body") == "text":
         return verdict(("unmarshal", FOREIGN))
+    if "decode" in spec:
+        return verdict(("unmarshal", spec["decode"]))
     if not spec.get("active"):
         return verdict(("assertion", FOREIGN))
     if _claims_fail(spec, mech):
@@ -275,7 +364,7 @@ def gen_verdict(val, mech):
     if spec.get("body") == "text":
         return verdict(("subject", SUBJECT_MISSING))
     if mech.get("lifespan"):
-        if "raw_exp" in spec:
+        if "raw_exp" in spec or spec.get("decode"):
             return verdict(("lifespan", chain(FOREIGN, FOREIGN)))
         if spec.get("active") is False or not _times_ok(spec):
             return verdict(("sessionAssert", ASSERTION))
@@ -842,11 +931,13 @@ STATES = {
                    ("valid", ("Authorization", "Basic " + b64("user:secret")))],
     "jwt": [("none", None), ("foreign", ("Authorization", "Basic " + b64("user:secret"))),
             ("malformed", ("Authorization", "Bearer a.b.c")), ("invalid", ("Authorization", "Bearer @Jbadsig@")),
-            ("expired", ("Authorization", "Bearer @Jexpired@")), ("valid", ("Authorization", "Bearer @Jok@"))],
+            ("expired", ("Authorization", "Bearer @Jexpired@")), ("undecodable", ("Authorization", "Bearer @Jexpms@")),
+            ("valid", ("Authorization", "Bearer @Jok@"))],
     "oauth2_introspection": [("none", None), ("foreign", ("X-Token", "Basic zzz")),
-                             ("invalid", ("X-Token", "Bearer opq-inactive")), ("valid", ("X-Token", "Bearer opq-alice"))],
+                             ("invalid", ("X-Token", "Bearer opq-inactive")),
+                             ("undecodable", ("X-Token", "Bearer opq-expms")), ("valid", ("X-Token", "Bearer opq-alice"))],
     "generic": [("none", None), ("invalid", ("Cookie", "sess-401")), ("expired", ("Cookie", "sess-expired")),
-                ("valid", ("Cookie", "sess-carol"))],
+                ("undecodable", ("Cookie", "sess-expe300")), ("valid", ("Cookie", "sess-carol"))],
     "anonymous": [("none", None)],
     "unauthorized": [("none", None)],
 }
